@@ -219,3 +219,54 @@ CODE_NAMES = {OK: "ok", BAD_ID: "invalid item id", BAD_DIMS: "wrong dimensions",
               BAD_BIN: "invalid bin id", BIN_GAP: "bin ids not contiguous",
               BAD_COUNT: "wrong multiplicity", BAD_NBINS: "wrong bin count",
               NEGATIVE: "negative (wrapped) coordinate"}
+
+
+def objective_models(y, n, k, W, H, grid, cnt, area, sky, out):
+    """
+    The seven documented objective values of a feasible packing, per cell.
+
+    grid: (>=k, W, H) scratch; cnt/area/sky: (>=k) scratch; out: (7,).
+    0 bin count; 1 (k-1)*n + items in last bin; 2 (k-1)*n + fewest items in
+    a bin; 3 (k-1)*A + covered area of last bin; 4 (k-1)*A + least covered
+    area; 5 (k-1)*A + area under the skyline of the last bin; 6 (k-1)*A +
+    lowest such area.
+    """
+    A = W * H
+    for b in range(k):
+        cnt[b] = 0
+        area[b] = 0
+        sky[b] = 0
+        for xx in range(W):
+            for yy in range(H):
+                grid[b, xx, yy] = 0
+    for i in range(n):
+        b = y[i, 1] - 1
+        cnt[b] += 1
+        for xx in range(y[i, 2], y[i, 4]):
+            for yy in range(y[i, 3], y[i, 5]):
+                grid[b, xx, yy] = 1
+    for b in range(k):
+        for xx in range(W):
+            top = 0
+            for yy in range(H):
+                if grid[b, xx, yy] != 0:
+                    area[b] += 1
+                    top = yy + 1
+            sky[b] += top
+    mc = cnt[0]
+    ma = area[0]
+    ms = sky[0]
+    for b in range(1, k):
+        if cnt[b] < mc:
+            mc = cnt[b]
+        if area[b] < ma:
+            ma = area[b]
+        if sky[b] < ms:
+            ms = sky[b]
+    out[0] = k
+    out[1] = (k - 1) * n + cnt[k - 1]
+    out[2] = (k - 1) * n + mc
+    out[3] = (k - 1) * A + area[k - 1]
+    out[4] = (k - 1) * A + ma
+    out[5] = (k - 1) * A + sky[k - 1]
+    out[6] = (k - 1) * A + ms
